@@ -466,13 +466,37 @@ def exact_solve(a, b):
 # ---------------------------------------------------------------------------
 # proxies
 
+def _fallback_getattribute(realgetter):
+    def __getattribute__(self, name):
+        # algopy's generated dispatchers call module.__getattribute__(name) explicitly
+        try:
+            return object.__getattribute__(self, name)
+        except AttributeError:
+            return getattr(realgetter(self), name)
+    return __getattribute__
+
+
 class _LinalgProxy(object):
     def __init__(self, real, stubs):
         self._real = real
         self._stubs = stubs
 
-    def __getattr__(self, name):
-        return getattr(self._real, name)
+    __getattribute__ = _fallback_getattribute(lambda self: object.__getattribute__(self, '_real'))
+
+    def det(self, a):
+        if _has_sym(a):
+            _hit('numpy.linalg.det')
+            return _det(np.asarray(a).view(np.ndarray))
+        return self._real.det(a)
+
+    def slogdet(self, a):
+        if _has_sym(a):
+            _hit('numpy.linalg.slogdet')
+            d = _det(np.asarray(a).view(np.ndarray))
+            if bool(d > 0):
+                return S.const(1), d.log()
+            return S.const(-1), (-d).log()
+        return self._real.slogdet(a)
 
     def inv(self, a):
         if _has_sym(a):
@@ -568,8 +592,7 @@ class _FFTProxy(object):
     def __init__(self, real):
         self._real = real
 
-    def __getattr__(self, name):
-        return getattr(self._real, name)
+    __getattribute__ = _fallback_getattribute(lambda self: object.__getattribute__(self, '_real'))
 
     def fft(self, a, n=None, axis=-1, **kw):
         if _has_sym(a):
@@ -640,8 +663,7 @@ class NumpyProxy(object):
         self.errstate = _NoErrstate
         self.ndarray = np.ndarray
 
-    def __getattr__(self, name):
-        return getattr(np, name)
+    __getattribute__ = _fallback_getattribute(lambda self: np)
 
     # -- allocation ---------------------------------------------------------
     def _alloc(self, shape, dtype, fillv):
@@ -818,8 +840,7 @@ class ScipyProxy(object):
         self.linalg = _LinalgProxy(scipy.linalg, stubs)
         self.special = scipy.special
 
-    def __getattr__(self, name):
-        return getattr(scipy, name)
+    __getattribute__ = _fallback_getattribute(lambda self: scipy)
 
 
 # ---------------------------------------------------------------------------
